@@ -162,18 +162,6 @@ func (e *Variable) SetGrlText(grlText string) {
 	e.GrlText = grlText
 }
 
-// resetAliases forgets what was read through another spelling of the written location. The element of an array
-// or map can be addressed by any selector expression (F.Arr[0], F.Arr[F.I]) and the member of a map-like node
-// (a JSON object) by dot or by selector (J.k, J["k"]); those readers are indexed under their own text only. Everything
-// read from such a container is indexed under the container, so every container on the written path is reset.
-func (e *Variable) resetAliases(memory *WorkingMemory) {
-	for v := e; v.Variable != nil; v = v.Variable {
-		if v.ArrayMapSelector != nil || (v.Variable.ValueNode != nil && v.Variable.ValueNode.IsMap()) {
-			memory.ResetVariable(v.Variable)
-		}
-	}
-}
-
 // Assign will assign the specified value to the variable
 func (e *Variable) Assign(newVal reflect.Value, dataContext IDataContext, memory *WorkingMemory) error {
 	if len(e.Name) > 0 && e.Variable == nil {
@@ -190,11 +178,12 @@ func (e *Variable) Assign(newVal reflect.Value, dataContext IDataContext, memory
 		if err != nil {
 			return err
 		}
+		size := containerSize(e.Variable.ValueNode)
 		err = e.Variable.ValueNode.SetObjectValueByField(e.Name, newVal)
 		if err == nil {
 			dataContext.IncrementVariableChangeCount()
 			memory.ResetVariable(e)
-			e.resetAliases(memory)
+			memory.ResetAliases(e, size)
 		}
 
 		return err
@@ -210,11 +199,12 @@ func (e *Variable) Assign(newVal reflect.Value, dataContext IDataContext, memory
 
 			return err
 		}
+		size := containerSize(e.Variable.ValueNode)
 		if e.Variable.ValueNode.IsArray() {
 			err := e.Variable.ValueNode.SetArrayValueAt(int(e.ArrayMapSelector.Value.Int()), newVal)
 			if err == nil {
 				memory.ResetVariable(e)
-				e.resetAliases(memory)
+				memory.ResetAliases(e, size)
 			}
 
 			return err
@@ -223,7 +213,7 @@ func (e *Variable) Assign(newVal reflect.Value, dataContext IDataContext, memory
 			err := e.Variable.ValueNode.SetMapValueAt(e.ArrayMapSelector.Value, newVal)
 			if err == nil {
 				memory.ResetVariable(e)
-				e.resetAliases(memory)
+				memory.ResetAliases(e, size)
 			}
 
 			return err
